@@ -43,6 +43,9 @@ SET_METHODS = {"union", "intersection", "difference", "symmetric_difference", "c
 # mapping, not its insertion order)
 UNORDERED_FIELDS = {"depends_on", "statements", "global_table", "per_phase_table"}
 
+# tables of tables: the inner tables are filled in visiting order as well
+NESTED_UNORDERED_FIELDS = {"per_phase_table"}
+
 EMIT_RE = re.compile(r"^(_?emit.*|emitter|declaration_emitter|emit)$")
 ALLOC_NAMES = {
     "var_name_gen", "stmt_id_gen", "make_unique_fortran_name",
@@ -52,6 +55,48 @@ ALLOC_NAMES = {
 }
 NAME_MANAGER_ATTRS = {"name_manager", "_name_manager"}
 PHASE_MAP_CTORS = {"DAGCode", "DAGCode.from_phases_list"}
+
+
+IDENTIFYING_ATTRS = {"id", "name", "identifier"}
+
+
+def key_is_total(call):
+    """Does the key= of this sorted() call tell any two items apart?  Accepted:
+    no key; the item's name / id / identifier; the first component of an item
+    (a dict key from .items()); str / repr of the item; a tuple holding one of
+    these or the whole item."""
+    key = next((k.value for k in call.keywords if k.arg == "key"), None)
+    if key is None:
+        return True
+    d = dotted(key)
+    if d in ("str", "repr"):
+        return True
+    if isinstance(key, ast.Call) and dotted(key.func) in ("itemgetter", "operator.itemgetter") \
+            and len(key.args) == 1 and isinstance(key.args[0], ast.Constant) and key.args[0].value == 0:
+        return True
+    if isinstance(key, ast.Call) and dotted(key.func) in ("attrgetter", "operator.attrgetter") \
+            and len(key.args) == 1 and isinstance(key.args[0], ast.Constant) \
+            and key.args[0].value in IDENTIFYING_ATTRS:
+        return True
+    if isinstance(key, ast.Lambda) and len(key.args.args) == 1:
+        p = key.args.args[0].arg
+
+        def total(x):
+            if isinstance(x, ast.Name) and x.id == p:
+                return True
+            if isinstance(x, ast.Attribute) and isinstance(x.value, ast.Name) and x.value.id == p \
+                    and x.attr in IDENTIFYING_ATTRS:
+                return True
+            if isinstance(x, ast.Subscript) and isinstance(x.value, ast.Name) and x.value.id == p \
+                    and isinstance(x.slice, ast.Constant) and x.slice.value == 0:
+                return True
+            if isinstance(x, ast.Call) and dotted(x.func) in ("str", "repr") and len(x.args) == 1:
+                return total(x.args[0])
+            if isinstance(x, ast.Tuple):
+                return any(total(y) for y in x.elts)
+            return False
+        return total(key.body)
+    return False
 
 
 class Finding:
@@ -225,6 +270,8 @@ class Taint:
             # a slice of a tainted sequence keeps the taint; an element does not
             if isinstance(e.slice, ast.Slice):
                 return self.is_tainted(e.value, f, tainted)
+            if isinstance(e.value, ast.Attribute) and e.value.attr in NESTED_UNORDERED_FIELDS:
+                return True
             return False
         if isinstance(e, ast.JoinedStr):
             return any(isinstance(v, ast.FormattedValue) and self.is_tainted(v.value, f, tainted)
@@ -235,6 +282,9 @@ class Taint:
             if isinstance(fn, ast.Name):
                 if fn.id in SET_CTORS:
                     return True
+                if fn.id in ("sorted", "natsorted") and not key_is_total(e):
+                    # a key with ties leaves tied items in the order they came in
+                    return any(self.is_tainted(a, f, tainted) for a in e.args)
                 if fn.id in CLEAN_FUNCS:
                     return False
                 if fn.id in SEQ_FUNCS:
@@ -244,6 +294,9 @@ class Taint:
             if isinstance(fn, ast.Attribute):
                 if fn.attr in SET_METHODS or fn.attr in ("keys", "values", "items"):
                     return self.is_tainted(fn.value, f, tainted)
+                if fn.attr in ("get", "setdefault", "pop") and isinstance(fn.value, ast.Attribute) \
+                        and fn.value.attr in NESTED_UNORDERED_FIELDS:
+                    return True
                 if fn.attr == "join":
                     return any(self.is_tainted(a, f, tainted) for a in e.args)
                 if fn.attr == "format":
